@@ -483,7 +483,15 @@ func checkC14(r *kit.Run) {
 
 	// design: the work-set protocol
 	for _, cfg := range kit.Pick(r, []string{"ParWork_quick.cfg", "ParWork_live.cfg"}, []string{"ParWork_quick.cfg", "ParWork_live.cfg", "ParWork_thorough.cfg"}) {
-		res, err := kit.RunTLC(kit.TLCOpts{Module: "ParWork", Cfg: cfg, Timeout: 30 * time.Minute, Heap: "16g"})
+		res, err := kit.RunTLC(kit.TLCOpts{Module: "ParWork", Cfg: cfg, Coverage: cfg == "ParWork_quick.cfg", Timeout: 30 * time.Minute, Heap: "16g"})
+		if err == nil && res.Coverage != nil {
+			for a, n := range res.Coverage {
+				if n == 0 {
+					res.Cleanup()
+					r.Fatal("ParWork model %s: action %s is never taken (vacuous configuration)", cfg, a)
+				}
+			}
+		}
 		if err != nil || res.TimedOut || !res.OK() {
 			out := res.Tail(40)
 			res.Cleanup()
